@@ -280,8 +280,10 @@ pub enum P {
 #[derive(Clone, Debug, Serialize, Deserialize)]
 pub enum WAct {
     Award,
-    /// sel: 0 = 1 atto, 1 = everything available, 2 = available + 1, 3 = huge
+    /// sel: 0 = 1 atto, 1 = everything available, 2 = available + 1, 3 = huge, 4 = zero
     Withdraw { by: P, sel: u8 },
+    /// the owner sends the miner 100 FIL (plain transfer; only offered while fee debt is outstanding)
+    TopUp,
     SetBeneficiary { quota_small: bool, expires_soon: bool },
     ReportFault,
     /// advance to the next vesting boundary: 0 = one epoch before, 1 = exactly, 2 = one after
@@ -297,6 +299,8 @@ pub struct WM {
     pub exp: i64,
     pub msgs_left: u8,
     pub jumps_left: u8,
+    /// the one top-up of a history has been spent
+    pub topped: bool,
     /// model of the vesting table
     pub vest: BTreeMap<i64, String>,
 }
@@ -372,6 +376,7 @@ impl Scenario for Withdrawals {
             exp: 0,
             msgs_left: self.msgs,
             jumps_left: self.jumps,
+            topped: false,
             vest: Self::table(&vm, &st).into_iter().map(|(e, a)| (e, a.atto().to_string())).collect(),
         };
         let snap = vm.snapshot();
@@ -390,13 +395,14 @@ impl Scenario for Withdrawals {
         match a {
             WAct::Award => "award-block-reward".into(),
             WAct::Withdraw { by, sel } => format!("withdraw by {by:?} sel{sel}"),
+            WAct::TopUp => "top-up while in fee debt".into(),
             WAct::SetBeneficiary { .. } => "set-beneficiary".into(),
             WAct::ReportFault => "report-consensus-fault".into(),
             WAct::ToVest(k) => format!("to-next-vesting-epoch{}", ["-1", "", "+1"][*k as usize]),
         }
     }
 
-    fn actions(&self, _w: &WW, s: &VS<WM>) -> Vec<WAct> {
+    fn actions(&self, w: &WW, s: &VS<WM>) -> Vec<WAct> {
         let mut v = vec![];
         if s.m.msgs_left > 0 {
             v.push(WAct::Award);
@@ -404,6 +410,14 @@ impl Scenario for Withdrawals {
                 for sel in 0..4 {
                     v.push(WAct::Withdraw { by, sel });
                 }
+            }
+            w.vm.restore(&s.snap);
+            if Self::info(&w.vm, w.m).0.fee_debt.is_positive() {
+                if !s.m.topped {
+                    v.push(WAct::TopUp);
+                }
+                v.push(WAct::Withdraw { by: P::O, sel: 4 });
+                v.push(WAct::Withdraw { by: P::B, sel: 4 });
             }
             for (q, e) in [(true, false), (true, true), (false, false), (false, true)] {
                 v.push(WAct::SetBeneficiary { quota_small: q, expires_soon: e });
@@ -461,6 +475,7 @@ impl Scenario for Withdrawals {
                     0 => atto(1),
                     1 => avail.clone(),
                     2 => &avail + atto(1),
+                    4 => TokenAmount::zero(),
                     _ => fil(1_000_000),
                 };
                 let ben = info0.beneficiary.id().unwrap();
@@ -507,6 +522,11 @@ impl Scenario for Withdrawals {
                     if st1.fee_debt.is_positive() {
                         viol = Some("fee debt left unpaid by a successful withdrawal".into());
                     }
+                    // "any fee debt is repaid in full as part of the same call": repaid = burnt
+                    let burnt: TokenAmount = r.effective().iter().filter(|i| i.from == w.m && i.method == 0 && i.to_id() == Some(99)).map(|i| i.value.clone()).sum();
+                    if burnt != st0.fee_debt {
+                        viol = Some(format!("successful withdrawal with fee debt {} outstanding burnt {burnt}: the debt must be repaid (burnt) in full by the same call", st0.fee_debt));
+                    }
                     outcome = "accepted";
                 } else {
                     outcome = "rejected";
@@ -532,6 +552,14 @@ impl Scenario for Withdrawals {
                     m.beneficiary = nb;
                     m.quota = i1.beneficiary_term.quota.atto().to_string();
                     m.exp = i1.beneficiary_term.expiration;
+                }
+            }
+            WAct::TopUp => {
+                // anybody can send a miner funds: not counted against the message budget, once per history
+                m.topped = true;
+                let r = ext(vm, w.o, &id(w.m), &fil(100), 0, NOP);
+                if !r.ok() {
+                    viol = Some(format!("plain transfer to the miner failed: {}", r.tree()));
                 }
             }
             WAct::ReportFault => {
